@@ -160,7 +160,7 @@ def gis(p, ref, f, kind):
 
 def cblog(p):
     if '$cblog' not in p.heap:
-        p.heap['$cblog'] = z3.Const('H%s_$cblog' % p.epoch, z3.SeqSort(CbCall))
+        p.heap['$cblog'] = z3.Const('H0_$cblog', z3.SeqSort(CbCall))     # not subject to all_but havoc epochs
     return p.heap['$cblog']
 
 
